@@ -255,4 +255,10 @@ theorem C15_relabelled_app_not_deleted (stored current : ProjectSig) (a b : AppS
 /-- the source uses that lookup (read by the translator on every run) -/
 theorem C15_source_deleted_lookup : DEvo.Generated.deletedAppsLookup = "get_app_sig" := by decide
 
+/-- a purge is queued for exactly the apps the initial difference lists as deleted - the apps that are no
+longer installed -, never for an installed app whose models are merely gone (read by the translator on
+every run) -/
+theorem C15_source_purge_queue : DEvo.Generated.purgeQueueBody =
+    ["for app_label in self.initial_diff.deleted: ;     self.queue_purge_app(app_label)"] := by decide
+
 end DEvo.Props.C15
